@@ -23,7 +23,7 @@ def run(cmd, env=None, cwd=None, timeout=3600):
     return p.returncode, p.stdout
 
 
-subprocess.run(["git", "-C", wt, "checkout", "-q", "--", "."], check=True)
+subprocess.run(["git", "-C", wt, "reset", "-q", "--hard"], check=True)
 # bring the scratch worktree to /repo's current HEAD, so that the change is judged on top of the tree being verified
 head = subprocess.check_output(["git", "-C", "/repo", "rev-parse", "HEAD"], text=True).strip()
 subprocess.run(["git", "-C", wt, "checkout", "-q", "--detach", head], check=True)
@@ -32,6 +32,7 @@ rc, o = run(["git", "-C", wt, "apply", patch])
 if rc:
     rc, o = run(["git", "-C", wt, "apply", "--3way", patch])
 if rc:
+    subprocess.run(["git", "-C", wt, "reset", "-q", "--hard"], check=True)
     print(json.dumps({"error": "patch does not apply", "output": o[-400:]}))
     sys.exit(2)
 try:
